@@ -7,11 +7,11 @@ SPEC = dict(
     props=["C14/Props.v", "C14/SbsProps.v"],
     coq_dir="C14",
     coq_targets=["C14/Proofs.vo", "C14/SetObs.vo", "C14/SetAfter.vo", "C14/SetDom.vo", "C14/SetRange.vo", "C14/SetRangeU.vo", "C14/SetEq.vo", "C14/SetOrd.vo", "C14/SetL0.vo", "C14/SetL0Proofs.vo", "C14/Examples.vo",
-                 "C14/SbsProofs.vo", "C14/SbsSpec.vo", "C14/SbsRoundtrip.vo", "C14/SbsExamples.vo"],
+                 "C14/SbsProofs.vo", "C14/SbsSpec.vo", "C14/SbsRoundtrip.vo", "C14/SbsClip.vo", "C14/SbsExamples.vo"],
     allowed_axioms=[],
     level_text=("Codec half: the sparse-bit-set round trip is PROVED IN GENERAL (sbs_roundtrip, sbs_roundtrip_auto: for every sorted set of u32, all four "
                 "branch factors and to_sparse_bit_set: the encoder does not panic, decode(encode S) leaves nothing unread and has exactly the members of S); "
-                "decoder totality and equivalence with an independent transcription of the IFT specification's decoding algorithm for all inputs <= 2^27 bytes. Set half: "
+                "decoder totality and equivalence with an independent transcription of the IFT specification's decoding algorithm for inputs of ANY length (the u32 arithmetic of skip_nodes is proved never to overflow), the general encode/decode round trip for every sorted set of u32 and every branch factor incl. bias/max_value clipping (sbs_roundtrip, sbs_roundtrip_bias_max) and the filled-node clause (sbs_decode_filled_clipped/_root, sbs_filled_iff_full). Set half: "
                 +"Unbounded Coq theorems about an executable model of read-fonts' IntSet / BitSet / BitPage and RangeSet. For EVERY sequence of "
                 "insert / remove / insert_range / remove_range / extend / remove_all / union / intersect / subtract / invert / clear / "
                 "assign operations on two evolving sets (induction over the operation list) the model state is well formed, its stored values "
@@ -45,7 +45,7 @@ SPEC = dict(
               "read-fonts/src/collections/int_set/mod.rs: Membership, IntSet insert/remove/insert_range/remove_range/extend/extend_unsorted/remove_all/union/intersect/subtract/invert/clear/contains/len/is_empty/iter/iter_after/iter_ranges/iter_excluded_ranges/first/last/intersects_range/intersects_set/Eq/Ord/is_inverted for continuous domains",
               "read-fonts/src/collections/range_set.rs: RangeSet insert/extend/FromIterator/iter/intersection, OrdAdjacency for u32/u16",
               "read-fonts/src/collections/int_set/bitset.rs (L0): process (steps 1-4), compact, compact_pages, resize, passthrough_behavior over (pages, page_map) — coq/C14/SetL0.v"],
-    not_covered=[                 "sparse-bit-set decoder theorems (totality, equivalence with spec_decode) assume input length <= 2^27 bytes",
+    not_covered=[
                  "discontinuous Domain implementations (Even, TwoIntervals in the harness): implementation-only BTreeSet shadow oracle, not in the Coq model",
                  "Hash (equal sets hash equally; rebuild in the same/opposite mode hashes equally), mixed-direction iteration on one iterator, inclusive_iter, RangeSet<u16>: implementation-only oracle",
                  "process_L0_refines_L1 is partial: unbounded for steps 3-4 (all operators) and end to end for passthrough_left operators (union, subtract); for intersect / reversed_subtract the step-1 front compaction and compact() are covered only by the bounded-exhaustive theorem (all states over 3 majors); Inv0 preservation by process0 not proved",
